@@ -368,6 +368,23 @@ func ruleC10UseNumber(c *Ctx, r *Rep) {
 						if pt, ok := t.(*types.Pointer); ok {
 							target = pt.Elem().String()
 							okc := !mayHoldContainer(pt.Elem()) || pt.Elem().String() == "string"
+							// a destination that is never read: the call is made for its error only (re-locating a syntax error)
+							if u, ok := unparen(x.Args[1]).(*ast.UnaryExpr); ok && u.Op == token.AND && !okc {
+								if id, ok := unparen(u.X).(*ast.Ident); ok {
+									obj := info.ObjectOf(id)
+									reads := 0
+									ast.Inspect(fd.Body, func(k ast.Node) bool {
+										if kid, ok := k.(*ast.Ident); ok && kid != id && info.Uses[kid] == obj {
+											reads++
+										}
+										return true
+									})
+									if reads == 0 {
+										r.OK(fn+":Unmarshal", x.Pos(), "json.Unmarshal in %s decodes into %s, which is never read: only the error of the call is used, no number can lose its spelling", fn, id.Name)
+										return true
+									}
+								}
+							}
 							r.Check(okc, fn+":Unmarshal", x.Pos(), "json.Unmarshal in %s decodes into %s: %s", fn, target, map[bool]string{true: "a concrete non-JSON-value type", false: "an interface-typed JSON value — numbers become float64 (no UseNumber), so big integers and literal shapes are lost; the sibling readers go through newJSONInputIter"}[okc])
 						}
 					}
